@@ -3,9 +3,9 @@
    the known finding KF-C, rewrites exactly those bytes into the native-endian canonical encoding, leaves every
    other byte of the buffer alone and returns the (aligned) end of the message. *)
 From Coq Require Import ZArith List Bool Lia ZifyBool.
-From Prophy Require Import Bytes Schema Layout Wire Src PyStatics PyEncode PyDecode PcModel CppFull CppSwap
+From Prophy Require Import Bytes Schema Layout Wire SwapSpec Src PyStatics PyEncode PyDecode PcModel CppFull CppSwap
   Arith SpecAlign Views SpecLen WireFacts BytesFacts SrcFacts PyStaticsFacts PyEncodeFacts PyDecodeFacts PyRoundtrip
-  PcFacts PcRawFacts CppSizeFacts CppEncFacts CppDecFacts CppDecRoundtrip.
+  PyRoundtripGreedy TailFacts PcFacts PcRawFacts CppSizeFacts CppEncFacts CppDecFacts CppDecRoundtrip.
 Import ListNotations.
 Local Open Scope Z_scope.
 Ltac Zify.zify_post_hook ::= Z.to_euclidean_division_equations.
@@ -310,13 +310,13 @@ Section SWF.
     end.
   Proof. reflexivity. Qed.
 
-  Lemma sw_fields_rt sa sizeofX plast all_fs all_vs : okal sa ->
+  Lemma sw_fields_conv sa sizeofX plast all_fs all_vs : okal sa ->
     (existsb ends_block all_fs = true -> plast <= 0) ->
     forall fs pre_fs, all_fs = pre_fs ++ fs -> legal_fields legal pre_fs fs = true ->
     forall vs, Forall2 (fun f v => wt_field wt f v = true) fs vs ->
     Forall (fun f => swP e (snd f)) fs ->
     Forall (fun f => pc_align (snd f) = align (snd f) /\ pc_size (snd f) = size (snd f)) fs ->
-    Forall (fun f => fstiff stiffness f <> Unlimited) fs -> fs <> [] ->
+    Forall (fun f => fstiff stiffness f <> Unlimited) (removelast fs) -> fs <> [] ->
     Forall (fun f => kfc_free (snd f) = true) fs -> salign align fs <= sa ->
     forall decoded seen (after later : bool) acur base part rel B pre post,
       length decoded = length pre_fs -> all_vs = decoded ++ vs ->
@@ -327,22 +327,61 @@ Section SWF.
       (if after then later = true /\ rel = 0 /\ base = len pre + pad (blockal fs) (len pre) /\ acur = blockal fs
        else base + rel = len pre /\ okal B /\ blockal fs <= B /\ base mod B = 0) ->
       (later = false -> Forall (fun f => ends_block f = false) fs ->
-         base + sizeofX = len pre + segslen (lay_fields layout sa fs vs after (len pre))) ->
+         base + sizeofX = swap_ret sa fs vs after (len pre)) ->
       (later = true -> plast <= 0) ->
       sw_fields e swV sa sizeofX plast fs (pcms fs) (member_offsets fs part rel) seen later acur base
-                (pre ++ F (lay_fields layout sa fs vs after (len pre)) ++ post)
-      = Some (pre ++ N (lay_fields layout sa fs vs after (len pre)) ++ post,
-              len pre + segslen (lay_fields layout sa fs vs after (len pre))).
+                (pre ++ F (conv_fields sa fs vs after (len pre)) ++ post)
+      = Some (pre ++ N (conv_fields sa fs vs after (len pre)) ++ post, swap_ret sa fs vs after (len pre)).
   Proof.
     intros Hsa Hplg fs. induction fs as [|f r IH]; intros pre_fs Eall Hl vs H2 HP Hboth Hnu Hne Hkt Hsle decoded seen after later acur base part rel B pre post
       Hdl; [congruence|].
     pose proof (legal_fields_fok _ _ Hl) as Hok. inversion Hok as [|? ? Hokf Hokr]; subst.
     inversion Hboth as [|? ? [Haf Hsf] Hbr]; subst. inversion HP as [|? ? HPf HPr]; subst.
-    inversion Hnu as [|? ? Hnuf Hnur]; subst. inversion H2 as [|? v ? vr Hwf H2r]; subst.
+    inversion H2 as [|? v ? vr Hwf H2r]; subst.
     inversion Hkt as [|? ? Hktf Hktr]; subst.
     intros Hall Hhh Hhs Hseen Hkfc Hac Hacsa Hmain Hbase Hinv Hsz Hpl.
     set (m := pc_member pc_size pc_align pc_kind f) in *.
     set (a := if after then blockal (f :: r) else falign align f).
+    destruct (match r with [] => unl_field f | _ => false end) eqn:Eunl.
+    { (* the unlimited last member: nothing is converted, its (struct-aligned) address is returned *)
+      destruct r as [|g r']; [|discriminate Eunl].
+      assert (Evr : vr = []) by (inversion H2r; reflexivity). subst vr.
+      assert (Hao : okal a) by (unfold a; destruct after; [apply blockal_ok|apply falign_ok]).
+      pose proof (falign_ok f) as Hfo. pose proof (falign_le_blockal f []) as Hfb.
+      pose proof (pad_nonneg a (len pre) Hao) as Hp0.
+      set (o1 := rel + pad (falign align f) rel).
+      assert (Haddr : base + o1 = len pre + pad a (len pre)).
+      { unfold o1, a. destruct after.
+        - destruct Hinv as [_ [-> [-> _]]]. rewrite (pad_zero _ 0 Hfo) by (apply Z.mod_0_l; apply okal_pos in Hfo; lia). lia.
+        - destruct Hinv as [Hrel [HB [HbB HbaseB]]].
+          rewrite <- (pad_shift (falign align f) B base rel Hfo HB ltac:(lia) HbaseB). rewrite Hrel. lia. }
+      cbn [conv_fields swap_ret]. fold a. rewrite Eunl. rewrite member_offsets_cons. fold o1.
+      cbn [pcms map]. fold m.
+      assert (Emo : (if ends_block f then member_offsets [] (part + 1) 0 else member_offsets [] part (o1 + fsize size f)) = [])
+        by (destruct (ends_block f); reflexivity).
+      rewrite Emo, sw_fields_last. cbn zeta.
+      assert (Engr : pm_greedy m || (pm_kind m =? K_UNLIMITED) = true).
+      { unfold unl_field in Eunl. apply stiff_eqb_eq in Eunl. destruct Hokf as [Hlf Hkf]. unfold m, pc_member, fstiff in *.
+        pose proof (pc_kind_eq (snd f) Hlf) as Hkd.
+        destruct (fst f); cbn [pm_greedy pm_kind orb]; try discriminate Eunl; try reflexivity.
+        rewrite Hkd, Eunl. reflexivity. }
+      rewrite Engr, Haddr. unfold cpp_align_up.
+      assert (Eend : (if later then cpp_align sa (cpp_align acur (len pre + pad a (len pre))) else cpp_align acur (len pre + pad a (len pre)))
+                     = len pre + pad a (len pre) + pad sa (len pre + pad a (len pre))).
+      { destruct later.
+        - rewrite align_twice by assumption. apply cpp_align_spec. exact Hsa.
+        - rewrite (Hmain eq_refl). apply cpp_align_spec. exact Hsa. }
+      rewrite Eend. reflexivity. }
+    assert (Hnuf : fstiff stiffness f <> Unlimited).
+    { destruct r as [|g r']; [unfold unl_field in Eunl; apply stiff_eqb_neq in Eunl; exact Eunl|].
+      cbn [removelast] in Hnu. inversion Hnu; assumption. }
+    assert (Hnur : Forall (fun f => fstiff stiffness f <> Unlimited) (removelast r)).
+    { destruct r as [|g r']; [constructor|]. cbn [removelast] in Hnu. inversion Hnu; assumption. }
+    assert (Econv : conv_fields sa (f :: r) (v :: vr) after (len pre)
+                    = SPad (pad a (len pre)) :: lay_body layout f v (len pre + pad a (len pre))
+                      ++ conv_fields sa r vr (ends_block f) (len pre + pad a (len pre) + segslen (lay_body layout f v (len pre + pad a (len pre))))).
+    { cbn [conv_fields]. fold a. destruct r as [|g r']; [|reflexivity]. rewrite Eunl.
+      assert (Evr : vr = []) by (inversion H2r; reflexivity). subst vr. reflexivity. }
     assert (Hao : okal a) by (unfold a; destruct after; [apply blockal_ok|apply falign_ok]).
     pose proof (falign_ok f) as Hfo. pose proof (falign_le_blockal f r) as Hfb.
     assert (Hfa : falign align f <= a) by (unfold a; destruct after; lia).
@@ -360,13 +399,13 @@ Section SWF.
       - destruct Hinv as [_ [-> [-> _]]]. rewrite (pad_zero _ 0 Hfo) by (apply Z.mod_0_l; apply okal_pos in Hfo; lia). lia.
       - destruct Hinv as [Hrel [HB [HbB HbaseB]]].
         rewrite <- (pad_shift (falign align f) B base rel Hfo HB ltac:(lia) HbaseB). rewrite Hrel. lia. }
-    cbn [lay_fields]. fold a. fold p0. rewrite !render_pad_cons, !render_app. rewrite <- Hl1.
+    rewrite Econv. fold p0. rewrite !render_pad_cons, !render_app. rewrite <- Hl1.
     destruct (body_len f v (len pre1) (layout_lengths (snd f)) Hokf Hwf Ho1) as [B1 B2].
     set (body := lay_body layout f v (len pre1)) in *.
     assert (HlB : len (N body) = segslen body) by (apply len_render; assumption).
     pose proof (segslen_nonneg _ B1) as HB0.
     set (o' := len pre1 + segslen body) in *.
-    set (rest := lay_fields layout sa r vr (ends_block f) o') in *.
+    set (rest := conv_fields sa r vr (ends_block f) o') in *.
     rewrite member_offsets_cons. fold o1.
     (* the member itself *)
     destruct (sw_member_rt e seen f v pre1 (F rest ++ post) HPf Hokf Haf Hsf Hnuf Hktf Hwf Ho1) as [R [rec [Hmem [HR Hrec]]]].
@@ -393,16 +432,16 @@ Section SWF.
       cbn [pcms map]. fold m. destruct (ends_block f) eqn:Eeb; rewrite sw_fields_last; cbn zeta; rewrite Engr, Hmem', Eends.
       + (* dynamic last member *)
         assert (ER : R = o') by (rewrite (HR eq_refl); reflexivity). rewrite ER in *. clear ER.
-        unfold rest. cbn [lay_fields]. rewrite !render_one. cbn [render_seg].
+        unfold rest. cbn [conv_fields]. rewrite !render_one. cbn [render_seg].
         assert (Eend : (if later then cpp_align sa (cpp_align acur o') else cpp_align acur o') = o' + pad sa o').
         { destruct later.
           - rewrite align_twice by assumption. apply cpp_align_spec. exact Hsa.
           - rewrite (Hmain eq_refl). apply cpp_align_spec. exact Hsa. }
         rewrite Eend. unfold pre1. rewrite <- !app_assoc. do 2 f_equal.
-        rewrite segslen_cons, segslen_app. cbn [segslen fold_right seglen]. unfold o'. lia.
+        cbn [swap_ret]. fold a. fold p0. rewrite Eunl, <- Hl1. fold body. unfold o'. lia.
       + (* fixed last member *)
         apply ends_block_false in Eeb. specialize (B2 Eeb).
-        unfold rest. cbn [lay_fields]. rewrite !render_one. cbn [render_seg].
+        unfold rest. cbn [conv_fields]. rewrite !render_one. cbn [render_seg].
         destruct later.
         * specialize (Hpl eq_refl). specialize (Hbase eq_refl). rewrite Z.max_l by lia. rewrite Z.add_0_r, Esz0.
           assert (Eend : cpp_align sa (base + cpp_nearest acur (o1 + fsize size f)) = o' + pad sa o').
@@ -413,9 +452,9 @@ Section SWF.
               replace (base + o1 + fsize size f) with ((o1 + fsize size f) + base) by lia.
               rewrite (pad_shift' acur base _ Hac Hbase). lia. }
           rewrite Eend. unfold pre1. rewrite <- !app_assoc. do 2 f_equal.
-          rewrite segslen_cons, segslen_app. cbn [segslen fold_right seglen]. unfold o'. lia.
+          cbn [swap_ret]. fold a. fold p0. rewrite Eunl, <- Hl1. fold body. unfold o'. lia.
         * rewrite (Hsz eq_refl) by (constructor; [apply ends_block_false; exact Eeb|constructor]).
-          cbn [lay_fields]. fold a. fold p0. rewrite <- Hl1. fold body. unfold pre1. rewrite <- !app_assoc. reflexivity.
+          unfold pre1. rewrite <- !app_assoc. reflexivity.
     - (* a member followed by g *)
       destruct vr as [|w wr]; [inversion H2r|].
       assert (H2r' : Forall2 (fun f v => wt_field wt f v = true) r' wr) by (inversion H2r; assumption).
@@ -458,10 +497,12 @@ Section SWF.
       assert (Hsle' : salign align (g :: r') <= sa) by (rewrite salign_cons in Hsle; lia).
       assert (Hdata2 : pre1 ++ N body ++ F rest ++ post = pre2 ++ F rest ++ post) by (unfold pre2; rewrite <- app_assoc; reflexivity).
       rewrite Hdata2.
-      assert (Hfin : forall X, X = Some (pre2 ++ N rest ++ post, len pre2 + segslen rest) ->
-                X = Some (pre ++ (zeros p0 ++ N body ++ N rest) ++ post, len pre + segslen (SPad p0 :: body ++ rest))).
+      assert (Hfin : forall X, X = Some (pre2 ++ N rest ++ post, swap_ret sa (g :: r') (w :: wr) (ends_block f) (len pre2)) ->
+                X = Some (pre ++ (zeros p0 ++ N body ++ N rest) ++ post, swap_ret sa (f :: g :: r') (v :: w :: wr) after (len pre))).
       { intros X ->. unfold pre2, pre1. rewrite <- !app_assoc. do 2 f_equal.
-        rewrite segslen_cons, segslen_app, len_app, len_app, len_zeros, HlB by lia. cbn [seglen]. lia. }
+        change (swap_ret sa (f :: g :: r') (v :: w :: wr) after (len pre))
+          with (swap_ret sa (g :: r') (w :: wr) (ends_block f) (len pre + pad a (len pre) + segslen (lay_body layout f v (len pre + pad a (len pre))))).
+        fold p0. rewrite <- Hl1. fold body. fold o'. rewrite <- Hl2. unfold pre2, pre1. rewrite <- !app_assoc. reflexivity. }
       apply Hfin. unfold rest. rewrite <- Hl2.
       destruct (ends_block f) eqn:Eeb.
       + (* f ends its block: the next part *)
@@ -498,8 +539,9 @@ Section SWF.
              rewrite Hb. apply pad_aligned. apply blockal_ok.
           -- destruct Hinv as [_ [HB [HbB HbaseB]]]. split; [exact HB|]. split; [lia|exact HbaseB].
         * intros Hlat Hallf. rewrite (Hsz Hlat) by (constructor; assumption).
-          cbn [lay_fields]. fold a. fold p0. rewrite <- Hl1. fold body. fold o'. rewrite Eeb.
-          rewrite segslen_cons, segslen_app. cbn [seglen]. rewrite Hl2. unfold o'. lia.
+          change (swap_ret sa (f :: g :: r') (v :: w :: wr) after (len pre))
+            with (swap_ret sa (g :: r') (w :: wr) (ends_block f) (len pre + pad a (len pre) + segslen (lay_body layout f v (len pre + pad a (len pre))))).
+          fold p0. rewrite <- Hl1. fold body. fold o'. rewrite Hl2, Eeb. reflexivity.
   Qed.
 End SWF.
 
@@ -551,6 +593,87 @@ Proof.
     rewrite E. apply (IH Hnd i a data pos d r Hn Hb).
 Qed.
 
+(* ---- converted and kept segments ---- *)
+Lemma conv_lay sa fs : Forall (fun f => fstiff stiffness f <> Unlimited) fs -> forall vs after o,
+  conv_fields sa fs vs after o = lay_fields layout sa fs vs after o /\
+  swap_ret sa fs vs after o = o + segslen (lay_fields layout sa fs vs after o).
+Proof.
+  intros H. induction H as [|f r Hf Hr IH]; intros vs after o.
+  - cbn [conv_fields lay_fields swap_ret segslen fold_right seglen]. split; [reflexivity|lia].
+  - destruct vs as [|v vr]; [cbn [conv_fields lay_fields swap_ret segslen fold_right seglen]; split; [reflexivity|lia]|].
+    cbn [conv_fields lay_fields swap_ret].
+    set (a := if after then blockal (f :: r) else falign align f). set (p := pad a o).
+    set (body := lay_body layout f v (o + p)).
+    destruct r as [|g r'].
+    + assert (Eu : unl_field f = false) by (unfold unl_field; apply stiff_eqb_neq; exact Hf). rewrite Eu.
+      cbn [lay_fields]. split; [reflexivity|]. rewrite segslen_cons, segslen_app. cbn [segslen fold_right seglen]. lia.
+    + destruct (IH vr (ends_block f) (o + p + segslen body)) as [I1 I2]. rewrite I1, I2. split; [reflexivity|].
+      rewrite segslen_cons, segslen_app. cbn [seglen]. lia.
+Qed.
+
+Lemma conv_kept sa fs : forall vs after o,
+  lay_fields layout sa fs vs after o = conv_fields sa fs vs after o ++ kept_fields sa fs vs after o.
+Proof.
+  induction fs as [|f r IH]; intros vs after o; [reflexivity|].
+  destruct vs as [|v vr]; [reflexivity|]. cbn [conv_fields lay_fields kept_fields].
+  destruct r as [|g r'].
+  - destruct (unl_field f); cbn [lay_fields app]; [reflexivity|]. rewrite <- app_assoc, app_nil_r. reflexivity.
+  - rewrite IH. cbn [app]. rewrite <- app_assoc. reflexivity.
+Qed.
+
+Lemma conv_unl sa fs : forall vs after o, length vs = length fs -> unl_field (last fs (FPlain, TByte)) = true ->
+  segslen (conv_fields sa fs vs after o) = last_member_offset fs vs after o - o /\
+  swap_ret sa fs vs after o = cpp_align_up sa (last_member_offset fs vs after o).
+Proof.
+  induction fs as [|f r IH]; intros vs after o Hlen Hu; [discriminate Hu|].
+  destruct vs as [|v vr]; [discriminate Hlen|]. cbn [conv_fields swap_ret last_member_offset].
+  destruct r as [|g r'].
+  - cbn [last] in Hu. rewrite Hu. cbn [segslen fold_right seglen]. split; [lia|reflexivity].
+  - change (last (f :: g :: r') (FPlain, TByte)) with (last (g :: r') (FPlain, TByte)) in Hu.
+    cbn [length] in Hlen. cbn iota. change (fkind * ty)%type with field in *.
+    set (a := if after then blockal (f :: g :: r') else falign align f). set (p := pad a o).
+    set (body := lay_body layout f v (o + p)).
+    destruct (IH vr (ends_block f) (o + p + segslen body) ltac:(cbn [length]; lia) Hu) as [I1 I2].
+    rewrite I2. split; [|reflexivity]. rewrite segslen_cons, segslen_app, I1. cbn [seglen]. lia.
+Qed.
+
+Lemma struct_counters fs vs : legal_fields legal [] fs = true ->
+  Forall2 (fun f v => wt_field wt f v = true) fs vs -> counts_ok vs fs vs = true ->
+  HSc fs (length (@nil value)) fs vs.
+Proof.
+  intros Hlf H2 Hcnt.
+  intros j f v Hf Hv Ek Es. cbn [length Nat.add] in Es |- *.
+  destruct (sizer_field fs vs j f v Hlf H2 Hcnt Hf Hv Es) as [k [n [Ef [Evn [Hr _]]]]].
+  pose proof Es as Es0. unfold is_sizer in Es0. apply existsb_exists in Es0. destruct Es0 as [g [Hin Hb]].
+  apply In_nth_error in Hin. destruct Hin as [jj Hjj].
+  assert (Hvj : exists w, nth_error vs jj = Some w).
+  { clear -H2 Hjj. revert jj Hjj. induction H2 as [|a b r br Hab Hr IHr]; intros [|jj] H; cbn in H; try discriminate; cbn; eauto. }
+  destruct Hvj as [w Hw].
+  destruct (counts_ok_nth vs fs vs jj g w j Hcnt Hjj Hw (bound_to_sizer j g Hb)) as [xs [Hn Hx]].
+  rewrite Hv, Evn in Hn. injection Hn as ->. subst w.
+  exists k, (len xs). repeat split; try assumption.
+  * apply len_nonneg.
+  * destruct (maxn_cases fs j) as [-> | [h [Hinh Hh]]].
+    -- unfold in_range, sk_max in Hr. subst f. cbn [fst snd] in *.
+       destruct (legal_sizer [] fs Hlf j Es) as [ts [Hn' Hi]]. cbn [app] in Hn'. rewrite Hf in Hn'. injection Hn' as <-.
+       cbn [int_scalar] in Hi. rewrite Hi in Hr.
+       destruct k; cbn [sk_signed sk_size] in Hr; cbn in Hr; lia.
+    -- apply In_nth_error in Hinh. destruct Hinh as [jh Hjh].
+       assert (Hvh : exists u, nth_error vs jh = Some u).
+       { clear -H2 Hjh. revert jh Hjh. induction H2 as [|a b r br Hab Hr IHr]; intros [|jh] H; cbn in H; try discriminate; cbn; eauto. }
+       destruct Hvh as [u Hu'].
+       assert (Hsh : sizer_of (fst h) = Some j) by (rewrite Hh; reflexivity).
+       destruct (counts_ok_nth vs fs vs jh h u j Hcnt Hjh Hu' Hsh) as [ys [Hny Hy]].
+       rewrite Hv, Evn in Hny. injection Hny as Hny. subst u.
+       assert (Hwh : wt_field wt h (VList ys) = true).
+       { clear -H2 Hjh Hu'. revert jh Hjh Hu'. induction H2 as [|a b r br Hab Hr IHr]; intros [|jh] H1 H3; cbn in H1, H3; try discriminate.
+         - injection H1 as <-. injection H3 as <-. exact Hab.
+         - eapply IHr; eassumption. }
+       unfold wt_field in Hwh. rewrite Hh in Hwh. apply andb_prop in Hwh. destruct Hwh as [Hle _]. lia.
+  * exists jj, g, xs. pose proof (legal_sizer_lt [] fs jj g j Hlf Hjj (bound_to_sizer j g Hb)) as Hlt. cbn [length] in Hlt.
+    repeat split; try assumption; try lia. exists j. apply bound_to_sizer. exact Hb.
+Qed.
+
 (* ---- C09 ---- *)
 Theorem cpp_swap_roundtrip e : forall t, swP e t.
 Proof.
@@ -571,44 +694,16 @@ Proof.
     pose proof (salign_ok fs) as Hsa.
     cbn [kfc_free] in Hkf. apply andb_prop in Hkf. destruct Hkf as [Hkf1 Hkf2].
     destruct (pc_layout_eq _ Hl0) as [Eal Esz]. cbn [align] in Eal. rewrite Eal, Esz, (pc_raw_layout_eq fs Hl0).
-    apply (sw_fields_rt e (salign align fs) (size (TStruct fs)) (last (pc_paddings fs) 0) fs vs Hsa (last_padding_dyn fs Hl0)
-             fs [] eq_refl Hlf vs H2 IH Hboth Hnu Hne (forallb_Forall _ _ Hkf2) ltac:(lia)
+    destruct (conv_lay (salign align fs) fs Hnu vs false (len pre)) as [Ecv Ert]. rewrite <- Ert, <- Ecv.
+    apply (sw_fields_conv e (salign align fs) (size (TStruct fs)) (last (pc_paddings fs) 0) fs vs Hsa (last_padding_dyn fs Hl0)
+             fs [] eq_refl Hlf vs H2 IH Hboth (removelast_not_unl fs [] Hlf) Hne (forallb_Forall _ _ Hkf2) ltac:(lia)
              [] [] false false (salign align fs) (len pre) 0 0 (salign align fs) pre post eq_refl eq_refl).
     + (* hints *)
       intros j f v Hf Hv s Hs. cbn [length Nat.add].
       destruct (counts_ok_nth vs fs vs j f v s Hcnt Hf Hv Hs) as [xs [Hn Hx]].
       exists xs. repeat split; auto. pose proof (legal_sizer_lt [] fs j f s Hlf Hf Hs) as Hlt. cbn [length] in Hlt. lia.
     + (* counters *)
-      intros j f v Hf Hv Ek Es. cbn [length Nat.add] in Es |- *.
-      destruct (sizer_field fs vs j f v Hlf H2 Hcnt Hf Hv Es) as [k [n [Ef [Evn [Hr _]]]]].
-      pose proof Es as Es0. unfold is_sizer in Es0. apply existsb_exists in Es0. destruct Es0 as [g [Hin Hb]].
-      apply In_nth_error in Hin. destruct Hin as [jj Hjj].
-      assert (Hvj : exists w, nth_error vs jj = Some w).
-      { clear -H2 Hjj. revert jj Hjj. induction H2 as [|a b r br Hab Hr IHr]; intros [|jj] H; cbn in H; try discriminate; cbn; eauto. }
-      destruct Hvj as [w Hw].
-      destruct (counts_ok_nth vs fs vs jj g w j Hcnt Hjj Hw (bound_to_sizer j g Hb)) as [xs [Hn Hx]].
-      rewrite Hv, Evn in Hn. injection Hn as ->. subst w.
-      exists k, (len xs). repeat split; try assumption.
-      * apply len_nonneg.
-      * destruct (maxn_cases fs j) as [-> | [h [Hinh Hh]]].
-        -- unfold in_range, sk_max in Hr. subst f. cbn [fst snd] in *.
-           destruct (legal_sizer [] fs Hlf j Es) as [ts [Hn' Hi]]. cbn [app] in Hn'. rewrite Hf in Hn'. injection Hn' as <-.
-           cbn [int_scalar] in Hi. rewrite Hi in Hr.
-           destruct k; cbn [sk_signed sk_size] in Hr; cbn in Hr; lia.
-        -- apply In_nth_error in Hinh. destruct Hinh as [jh Hjh].
-           assert (Hvh : exists u, nth_error vs jh = Some u).
-           { clear -H2 Hjh. revert jh Hjh. induction H2 as [|a b r br Hab Hr IHr]; intros [|jh] H; cbn in H; try discriminate; cbn; eauto. }
-           destruct Hvh as [u Hu'].
-           assert (Hsh : sizer_of (fst h) = Some j) by (rewrite Hh; reflexivity).
-           destruct (counts_ok_nth vs fs vs jh h u j Hcnt Hjh Hu' Hsh) as [ys [Hny Hy]].
-           rewrite Hv, Evn in Hny. injection Hny as Hny. subst u.
-           assert (Hwh : wt_field wt h (VList ys) = true).
-           { clear -H2 Hjh Hu'. revert jh Hjh Hu'. induction H2 as [|a b r br Hab Hr IHr]; intros [|jh] H1 H3; cbn in H1, H3; try discriminate.
-             - injection H1 as <-. injection H3 as <-. exact Hab.
-             - eapply IHr; eassumption. }
-           unfold wt_field in Hwh. rewrite Hh in Hwh. apply andb_prop in Hwh. destruct Hwh as [Hle _]. lia.
-      * exists jj, g, xs. pose proof (legal_sizer_lt [] fs jj g j Hlf Hjj (bound_to_sizer j g Hb)) as Hlt. cbn [length] in Hlt.
-        repeat split; try assumption; try lia. exists j. apply bound_to_sizer. exact Hb.
+      apply (struct_counters fs vs Hlf H2 Hcnt).
     + (* nothing seen yet *)
       split; [reflexivity|]. intros s n _ Hn. destruct s; discriminate Hn.
     + rewrite (kfc_fields_main fs _ 1). exact Hkf1.
@@ -620,7 +715,7 @@ Proof.
     + (* sizeof(X) of a fixed struct *)
       intros _ Hallf. pose proof (fixed_of_all fs Hallf) as Hfx.
       destruct (layout_lengths_at (TStruct fs) (VStruct vs) (len pre) Hl0 Hw0 Ha) as [_ [_ A3]].
-      specialize (A3 Hfx). cbn [layout] in A3. rewrite A3. reflexivity.
+      specialize (A3 Hfx). cbn [layout] in A3. rewrite Ert, A3. reflexivity.
     + discriminate.
   - (* union *)
     intros Hw Ha.
@@ -658,4 +753,81 @@ Proof.
     unfold pre'. rewrite <- !app_assoc. do 2 f_equal.
     destruct (layout_lengths_at (snd a) x (len pre') Hla Hwa Hoa) as [A1 [_ A3]]. specialize (A3 Hfa).
     rewrite !segslen_cons, segslen_app, segslen_cons. cbn [seglen segslen fold_right]. lia.
+Qed.
+
+(* any legal struct at the root, the unlimited ones included: the converted segments are converted, whatever
+   follows them in the buffer is left as it is *)
+Theorem cpp_swap_struct_conv e fs vs pre rest :
+  legal (TStruct fs) = true -> wt (TStruct fs) (VStruct vs) = true -> kfc_free (TStruct fs) = true ->
+  len pre mod salign align fs = 0 ->
+  cpp_swap e (TStruct fs) (pre ++ render (flip e) (conv_fields (salign align fs) fs vs false (len pre)) ++ rest) (len pre)
+  = Some (pre ++ render e (conv_fields (salign align fs) fs vs false (len pre)) ++ rest,
+          swap_ret (salign align fs) fs vs false (len pre)).
+Proof.
+  intros Hl0 Hw0 Hkf Ha. pose proof Hl0 as Hl. pose proof Hw0 as Hw.
+  apply wt_struct in Hw. destruct Hw as [vs' [Ev [H2 Hcnt]]]. injection Ev as <-.
+  apply legal_struct in Hl. destruct Hl as [Hne Hok].
+  cbn [cpp_swap]. fold (pcms fs).
+  assert (Hlf : legal_fields legal [] fs = true) by (cbn [legal] in Hl0; destruct fs; [congruence|exact Hl0]).
+  assert (Hboth : Forall (fun f => pc_align (snd f) = align (snd f) /\ pc_size (snd f) = size (snd f)) fs).
+  { rewrite Forall_forall in *. intros f Hf. destruct (Hok f Hf) as [Hlf' _]. apply (pc_layout_eq (snd f) Hlf'). }
+  pose proof (salign_ok fs) as Hsa.
+  cbn [kfc_free] in Hkf. apply andb_prop in Hkf. destruct Hkf as [Hkf1 Hkf2].
+  destruct (pc_layout_eq _ Hl0) as [Eal Esz]. cbn [align] in Eal. rewrite Eal, Esz, (pc_raw_layout_eq fs Hl0).
+  assert (IH : Forall (fun f => swP e (snd f)) fs) by (apply Forall_forall; intros f _; apply cpp_swap_roundtrip).
+  apply (sw_fields_conv e (salign align fs) (size (TStruct fs)) (last (pc_paddings fs) 0) fs vs Hsa (last_padding_dyn fs Hl0)
+           fs [] eq_refl Hlf vs H2 IH Hboth (removelast_not_unl fs [] Hlf) Hne (forallb_Forall _ _ Hkf2) ltac:(lia)
+           [] [] false false (salign align fs) (len pre) 0 0 (salign align fs) pre rest eq_refl eq_refl).
+  + intros j f v Hf Hv s Hs. cbn [length Nat.add].
+    destruct (counts_ok_nth vs fs vs j f v s Hcnt Hf Hv Hs) as [xs [Hn Hx]].
+    exists xs. repeat split; auto. pose proof (legal_sizer_lt [] fs j f s Hlf Hf Hs) as Hlt. cbn [length] in Hlt. lia.
+  + apply (struct_counters fs vs Hlf H2 Hcnt).
+  + split; [reflexivity|]. intros s n _ Hn. destruct s; discriminate Hn.
+  + rewrite (kfc_fields_main fs _ 1). exact Hkf1.
+  + exact Hsa.
+  + lia.
+  + reflexivity.
+  + discriminate.
+  + split; [lia|]. split; [exact Hsa|]. split; [apply blockal_le|exact Ha].
+  + intros _ Hallf. pose proof (fixed_of_all fs Hallf) as Hfx.
+    assert (Hnu : Forall (fun f => fstiff stiffness f <> Unlimited) fs).
+    { apply Forall_forall. intros f Hf. rewrite Forall_forall in Hallf. specialize (Hallf f Hf). apply ends_block_false in Hallf. rewrite Hallf. discriminate. }
+    destruct (conv_lay (salign align fs) fs Hnu vs false (len pre)) as [_ Ert].
+    destruct (layout_lengths_at (TStruct fs) (VStruct vs) (len pre) Hl0 Hw0 Ha) as [_ [_ A3]].
+    specialize (A3 Hfx). cbn [layout] in A3. rewrite Ert, A3. reflexivity.
+  + discriminate.
+Qed.
+
+Theorem cpp_swap_prefix :
+  forall e fs vs pre post,
+    let t := TStruct fs in let v := VStruct vs in
+    legal t = true -> kfc_free t = true -> wt t v = true -> len pre mod align t = 0 ->
+    let k := segslen (conv_segs t v (len pre)) in
+    cpp_swap e t (pre ++ wire (flip e) t v ++ post) (len pre)
+    = Some (pre ++ firstn (Z.to_nat k) (wire e t v) ++ skipn (Z.to_nat k) (wire (flip e) t v) ++ post,
+            swap_ret (align t) fs vs false (len pre)) /\
+    (stiffness t = Unlimited ->
+       k = last_member_offset fs vs false (len pre) - len pre /\
+       swap_ret (align t) fs vs false (len pre) = cpp_align_up (align t) (last_member_offset fs vs false (len pre))).
+Proof.
+  intros e fs vs pre post t v Hl Hk Hw Ha k.
+  assert (Hlay : layout t v 0 = conv_segs t v (len pre) ++ kept_segs t v (len pre)).
+  { rewrite <- (layout_at_aligned t v (len pre) Ha). unfold t, v. cbn [layout conv_segs kept_segs]. apply conv_kept. }
+  destruct (layout_lengths t v Hl Hw) as [L1 _]. rewrite Hlay in L1.
+  apply Forall_app in L1. destruct L1 as [Lc Lk].
+  assert (Hlc : forall e', len (render e' (conv_segs t v (len pre))) = k) by (intros e'; apply len_render; exact Lc).
+  split.
+  - unfold wire. rewrite Hlay, !render_app.
+    replace (firstn (Z.to_nat k) (render e (conv_segs t v (len pre)) ++ render e (kept_segs t v (len pre))))
+      with (render e (conv_segs t v (len pre))) by (rewrite <- (Hlc e); symmetry; apply firstn_pre).
+    replace (skipn (Z.to_nat k) (render (flip e) (conv_segs t v (len pre)) ++ render (flip e) (kept_segs t v (len pre))))
+      with (render (flip e) (kept_segs t v (len pre))) by (rewrite <- (Hlc (flip e)); symmetry; apply skipn_mid).
+    cbn [align] in Ha. rewrite <- !app_assoc.
+    apply (cpp_swap_struct_conv e fs vs pre (render (flip e) (kept_segs t v (len pre)) ++ post) Hl Hw Hk Ha).
+  - intros Hu. pose proof Hl as Hl0. apply wt_struct in Hw. destruct Hw as [vs' [Ev [H2 _]]]. injection Ev as <-.
+    assert (Hlen : length vs = length fs) by (clear -H2; induction H2; cbn [length]; congruence).
+    assert (Hlf : legal_fields legal [] fs = true) by (unfold t in Hl0; cbn [legal] in Hl0; destruct fs; [discriminate Hl0|exact Hl0]).
+    pose proof (unl_is_last fs (removelast_not_unl fs [] Hlf) Hu) as Hlast.
+    destruct (conv_unl (align t) fs vs false (len pre) Hlen Hlast) as [C1 C2].
+    split; [exact C1|exact C2].
 Qed.
